@@ -67,7 +67,11 @@ def run(prop, tier, seed, t0):
         # in every configuration where it exists (obligation 2) -- its module is added to the selection.
         metas = {}
         for cfgname in configs:
-            _rs, metas[cfgname] = check.generate(cfgname, prop, tier)
+            try:
+                _rs, metas[cfgname] = check.generate(cfgname, prop, tier)
+            except Undecided as e:
+                undecided.append('verus/%s: %s' % (cfgname, str(e)[:1500]))
+        configs = [c for c in configs if c in metas]
         ids = {}
         for cfgname, m in metas.items():
             for f in m['fns']:
@@ -96,7 +100,11 @@ def run(prop, tier, seed, t0):
             if 'no Verus module is tagged' in str(e):
                 v = None
             else:
-                raise
+                # lost anchor / unsupported construct while generating or type-checking: the Verus side is undecided
+                # for this configuration; the Kani harnesses below still run on the compiled code (they may hold a
+                # counterexample, which is a violation in its own right).
+                undecided.append('verus/%s: %s' % (cfgname, str(e)[:1500]))
+                v = None
         vres_all[cfgname] = v
         if v is None:
             continue
